@@ -15,6 +15,8 @@ func flavourOf(id string) string {
 	switch id {
 	case "C09", "C10":
 		return "shim"
+	case "C20":
+		return "cmd"
 	}
 	return "plain"
 }
@@ -96,6 +98,21 @@ func buildHarness1(scratch, flavour string, hooks bool) (string, map[string]inte
 	info["repo_dirty_files"] = len(strings.Fields(gitOut("status", "--porcelain", "--untracked-files=no")))
 	if err != nil {
 		return "", info, fmt.Errorf("%v\n%s", err, out)
+	}
+	if flavour == "cmd" {
+		// the two command binaries, from the working tree
+		t1 := time.Now()
+		c5 := exec.Command("go", "build", "-o", filepath.Join(scratch, "jp5"), "./cmd/json-patch")
+		c5.Dir, c5.Env = filepath.Join(repoDir, "v5"), env()
+		if out, err := c5.CombinedOutput(); err != nil {
+			return "", info, fmt.Errorf("build v5/cmd/json-patch: %v\n%s", err, out)
+		}
+		c4 := exec.Command("go", "build", "-overlay", ovPath, "-o", filepath.Join(scratch, "jp4"), "./cmd/json-patch")
+		c4.Dir, c4.Env = repoDir, env()
+		if out, err := c4.CombinedOutput(); err != nil {
+			return "", info, fmt.Errorf("build cmd/json-patch (legacy): %v\n%s", err, out)
+		}
+		info["cmd_build_s"] = time.Since(t1).Seconds()
 	}
 	return bin, info, nil
 }
